@@ -145,8 +145,11 @@ def entry_str(e):
     elif kind == 'LP':
         lp = e.logPass
         rle = lp.rle
-        xl = rle.xAxisLastFrame()
-        sp = rle.frameSpacing() if len(rle) > 0 else None
+        try:
+            xl = rle.xAxisLastFrame()
+            sp = rle.frameSpacing() if len(rle) > 0 else None
+        except Exception as err:    # the implementation, not the harness, failed: part of its canonical output
+            return s + ':EXC=' + type(err).__name__
         items = ';'.join('%d,%d,%d,%d' % (r.datum, r.stride, r.repeat, r.numFrames) for r in rle.rle_items)
         plan = lp.type01Plan
         s += ':n=%d:x0=%s:xl=%s:sp=%s:rle=%s:plan=%d,%s' % (
